@@ -95,6 +95,17 @@ Definition chk_socks (c : list bytes * socks_obs) : bool :=
   Bool.eqb (k_crash s) crashed &&
   opt_agrees zlist_eqb (k_buf s ++ k_early s) resid.
 
+(* chunks, then EOF (only delivered if the transport is still open and nothing crashed):
+   observed = (EOF was delivered, answer keep-open, transport closed afterwards) *)
+Definition chk_socks_eof (c : list bytes * (bool * bool * bool)) : bool :=
+  let '(chunks, (delivered, keep, closed)) := c in
+  let s := feed_all socks_fx_head chunks in
+  let can := negb (k_crash s) && k_tr s in
+  Bool.eqb can delivered &&
+  (if can then let '(s', k) := seof socks_eof_fx_head s in
+     Bool.eqb k keep && Bool.eqb (negb (k_tr s')) closed
+   else true).
+
 (* ---- registry ---------------------------------------------------------------------------- *)
 
 (* observed: keys whose listening socket still accepts connections (sorted), and (private, None
